@@ -137,7 +137,8 @@ def collect(ck: Check, n_cases: int, n_ops: int, fixed: list | None = None):
         out += r["results"]
     crashed = [r for r in out if "crash" in r]
     if crashed:
-        ck.broke("impl-runner-crash", crashed[0]["crash"])
+        c0 = min(crashed, key=lambda r: len(r.get("ops") or []))
+        ck.runner_crash({"backend": c0["backend"], "ops": c0.get("ops") or []}, c0["crash"])
     return [r for r in out if "crash" not in r]
 
 
@@ -560,6 +561,9 @@ def replay_generic(ck: Check, obj, oracle, mask) -> int:
     rp = obj.get("replay") or obj["no_longer_checks"][0]["detail"]
     r = ck.run_impl("impl_res.py", [{"cases": [{"ops": rp["ops"], "backend": rp["backend"]}]}])[0]
     rr = r["results"][0]
+    if "crash" in rr:
+        print(rr["crash"])
+        return 1
     for s in rr["steps"]:
         print(s["op"], "->", s["out"])
     bad = oracle(rr)
